@@ -14,7 +14,15 @@ Small == UNION {[1..m -> SmallAlpha] : m \in 0..3}
 Long(len) == [i \in 1..len |-> "a"]
 Types == Small \cup {Long(9), Long(10), Long(11), Long(100), <<"a", " ", "1", "0", " ">>}
 Payloads == Small \cup {Long(9), Long(10), Long(99), Long(100), Long(101), <<"1", " ", "a", " ", "2">>}
-Pairs == Types \X Payloads
+\* payloads that are themselves complete encodings - of the same type, of another type, followed by more bytes,
+\* nested twice: framing is by the length fields alone, a payload's content is never looked at
+NestT == {<< >>, <<"a">>, <<"a", " ">>}
+NestP == {<< >>, <<"a">>}
+Nested == {<<t, Pack(t, p)>> : t \in NestT, p \in NestP}
+          \cup {<<t, Pack(t, p) \o <<"a">>>> : t \in NestT, p \in NestP}
+          \cup {<<t, Pack(<<"1">>, p)>> : t \in NestT, p \in NestP}
+          \cup {<<t, Pack(t, Pack(t, p))>> : t \in NestT, p \in NestP}
+Pairs == (Types \X Payloads) \cup Nested
 
 DecAlpha == {" ", "0", "1", "2", "9", "+", "a"}
 DecInputs == UNION {[1..m -> DecAlpha] : m \in 0..MaxDec}
